@@ -1,10 +1,10 @@
 """C02 -- folding and optimisation never change the computed function (structural clauses)."""
 from ..core import Ctx, Ob, PropSpec
-from ..rules import r3, r8, r12, r8
+from ..rules import r1, r3, r8, r12, r8
 
 
 def run(ctx: Ctx) -> list[Ob]:
-    return r3.r3c(ctx) + r3.r3d(ctx) + r3.r3e(ctx) + r3.r3f(ctx) + r12.r12a_outputs(ctx) + r8.run_guards(ctx, r8.GUARDS_MATCHERS)
+    return r3.r3c(ctx) + r3.r3d(ctx) + r3.r3e(ctx) + r3.r3f(ctx) + r12.r12a_outputs(ctx) + r8.run_guards(ctx, r8.GUARDS_MATCHERS) + r3.r3g(ctx) + r1.r1d_sweep(ctx)
 
 
 SPEC = PropSpec(
@@ -19,12 +19,15 @@ SPEC = PropSpec(
         "the sub-module itself, tensor-parameter groups are keyed on shape/requires_grad/dtype); R3e: every folded symbolic tensor "
         "is re-registered with its slice index; R12a (must-consult): some decision between pattern matching and rewriting in "
         "graph.optimize depends on membership in the graph's outputs (otherwise an interior matched layer that is also a circuit "
-        "output is fused away). R8 (truth-table on the CFG of the two chain matchers _match_layer_pattern / _match_parameter_nodes_pattern): under fan-out > 1 at any non-root entry, or fan-in > 1 at any entry but the last, an iteration of the matching loop can only refuse (return None) -- a fused module must not swallow a value another module still reads."
+        "output is fused away). R8 (truth-table on the CFG of the two chain matchers _match_layer_pattern / _match_parameter_nodes_pattern): under fan-out > 1 at any non-root entry, or fan-in > 1 at any entry but the last, an iteration of the matching loop can only refuse (return None) -- a fused module must not swallow a value another module still reads; R3g: the address-book builders replace a gather index by "
+        "an index-free form only after comparing the cumulative index with a range bounded by the sources' fold counts (num_folds), "
+        "never by the length of the request; R1d (optimiser sweep): every TorchLayer built by a fuse / shatter apply function receives "
+        "semiring= from the compiler or a matched layer."
     ),
     not_decided=(
         "that each optimisation rewrite is an algebraic identity (R12b rewrite carry not built); the other match guards (class, "
         "fan-in, fan-out, config patterns); run-time address-book index arithmetic."
     ),
     run=run,
-    floors={"R3c": 35, "R3d": 10, "R3e": 5, "R3f": 150, "R8": 12},
+    floors={"R3c": 35, "R3d": 10, "R3e": 5, "R3f": 150, "R8": 12, "R3g": 2, "R1d": 5},
 )
